@@ -110,6 +110,15 @@ def faults(rng, run):
         tail = [[{"op": "deliver"}], [{"op": "timeout"}], [lst], [{"op": "deliver"}], [{"op": "deliver"}],
                 [{"op": "deliver", "units": 2 * rng.randint(1, 7)}, {"op": "fault", "kind": "eof"}]]
         return {"run": run, "cfg": cfg, "batches": pre + tail + rand_batches(rng, nc, rng.randint(0, 3), allow_drop=False)}
+    if rng.random() < 0.1:
+        # a partial FIRST line of a notification is read, a request then cancels that receive (noidle is written), and the stream ends:
+        # the buffered partial line makes this an unclean end, whoever read it
+        nc = rng.choice([1, 2])
+        cfg = {"callers": nc, "split_seed": rng.getrandbits(48) | 1}
+        pre = [b for b in rand_batches(rng, nc, rng.randint(0, 3), allow_drop=False) if not any(st["op"] in ("wstall", "wresume", "cancel") for st in b)]
+        tail = [[{"op": "deliver"}], [{"op": "timeout"}], [{"op": "change", "subs": rng.sample(SUBS, rng.choice([1, 2]))}], [{"op": "deliver", "bytes": rng.randint(1, 8)}],
+                [{"op": "issue", "c": 0, "kind": "raw", "cmds": [{}]}], [{"op": "fault", "kind": "eof"}], [{"op": "deliver"}]]
+        return {"run": run, "cfg": cfg, "batches": pre + tail}
     s = base(rng, run)
     kind = rng.choice(["eof", "eof", "eof", "rerr", "werr", "garbage", "garbage", "idleack", "idleack"])
     pos = rng.randint(0, len(s["batches"]))
@@ -172,6 +181,9 @@ def handshake(rng, run):
     else:
         cfg["connect"] = rng.choice(["plain", "password_opt"])
     pre.append([{"op": "deliver"}])
+    if rng.random() < 0.2:
+        cfg["max_write"] = rng.choice([1, 3, 8])      # a transport that takes a few bytes per write: the password line must still go out completely
+        pre += [[{"op": "deliver"}], [{"op": "deliver"}]]
     return {"run": run, "cfg": cfg, "pre": pre, "batches": rand_batches(rng, nc, rng.randint(2, 8), allow_drop=False)}
 
 
